@@ -32,6 +32,9 @@ Definition pyindex {A} (l : list A) (i : Z) : option A :=
   else None.
 
 Record element := { colour : Z; duration : Z }.
+(* the objects as the translated source sees them (Gen/Src_traffic_light.v) *)
+Record cycle := { c_elements : list element; c_offset : Z }.
+Record light := { l_cycle : cycle }.
 
 Definition last_step (o : Z) (ds : list Z) : Z := last (init_steps o ds) o.   (* cycle_init_timesteps[-1] *)
 
